@@ -101,7 +101,8 @@ CHECKS = {
          "of the middle node is blocked only when the middle node is conditioned on and lies outside the sigma class of the child -- the combined triple test is mirror symmetric "
          "(helper(l,m,r) = helper(r,m,l): the step from which symmetry of the verdict follows), and get_equivalence_classes returns exactly the strongly connected components "
          "(singletons on acyclic graphs); the one-step backtrack augmentation (_triple_has_correct_form) equals its definition -- the plain test, or through some neighbour n != m of the "
-         "middle node the triples (l,m,n), (m,n,m), (n,m,r) all pass -- and is mirror symmetric as well. The path enumeration (networkx.all_simple_paths, more_itertools.triplewise) is outside the subset; symmetry, the "
+         "middle node the triples (l,m,n), (m,n,m), (n,m,r) all pass -- and is mirror symmetric as well; is_z_sigma_open holds for a simple path exactly when neither end point is conditioned on and every triple of consecutive "
+         "nodes passes that test. The path enumeration (networkx.all_simple_paths in are_sigma_separated) is outside the subset; symmetry, the "
          "adjacency rule and agreement with d-separation on acyclic graphs are decided end to end by the labelled bounded stand-in: every directed mixed graph with 2-3 nodes x every "
          "query and sampled 4-5 node graphs against networkx d-separation on the canonical DAG, including a history family (the graph object is queried once before its last edge "
          "is added in place: no verdict may depend on state kept from an earlier call).",
